@@ -212,6 +212,9 @@ func (c combCase) classes() []string {
 	if c.Reuse {
 		add("second-run-of-the-same-combined-scenario")
 	}
+	if strings.Contains(c.Tree, "()") {
+		add("empty-group-among-the-components")
+	}
 	if c.Tree != "" && strings.Count(c.Tree, "(") > 1 {
 		add("nested")
 	}
@@ -311,11 +314,11 @@ func buildTree(tree string, leaves []f1testing.ScenarioFn) (f1testing.ScenarioFn
 			}
 			kids = append(kids, k)
 		}
-		if pos >= len(tree) || len(kids) == 0 {
-			return nil, errors.New("unbalanced or empty group in tree")
+		if pos >= len(tree) {
+			return nil, errors.New("unbalanced group in tree")
 		}
 		pos++
-		return f1.CombineScenarios(kids...), nil
+		return f1.CombineScenarios(kids...), nil // an empty group "()" is CombineScenarios() of nothing
 	}
 	fn, err := parse()
 	if err != nil {
@@ -752,6 +755,24 @@ func genCase(t *rapid.T, maxIters int) combCase {
 	c.Workers = 1
 	if rapid.IntRange(0, 9).Draw(t, "nestMode") < 3 {
 		c.Tree = genTree(t, 0, c.N, 0)
+	}
+	if rapid.IntRange(0, 5).Draw(t, "emptyGroup") == 0 {
+		// "for every number of components": a combination of nothing, as one member of the combination -
+		// it sets nothing up and does nothing in an iteration
+		if c.Tree == "" {
+			c.Tree = "("
+			for i := 0; i < c.N; i++ {
+				c.Tree += string(byte('0' + i))
+			}
+			c.Tree += ")"
+		}
+		// insert "()" right after an opening or right before a closing parenthesis, or after a leaf
+		var spots []int
+		for i := 1; i <= len(c.Tree)-1; i++ {
+			spots = append(spots, i)
+		}
+		at := rapid.SampledFrom(spots).Draw(t, "emptyGroupAt")
+		c.Tree = c.Tree[:at] + "()" + c.Tree[at:]
 	}
 	switch m := rapid.IntRange(0, 9).Draw(t, "setupMode"); {
 	case m <= 5:
